@@ -96,6 +96,16 @@ func (x *Exec) callCommon(fr *frame, st *State, cc *ssa.CallCommon, fnv Value, a
 	if x.fc != nil && !x.forceInline {
 		for _, v := range x.fc.Views {
 			if vfc := x.prog.contracts.Funcs[name+"@"+v]; vfc != nil {
+				if vfc.Inline {
+					// the view says: execute the body in place (exact effect, nothing assumed)
+					out, res, ok := x.runFunc(callee, args, bind, *st, false)
+					if !ok {
+						st.reach = tFalse
+						return x.freshOpaqueOrValueSig(cc.Signature(), "noreturn")
+					}
+					*st = out
+					return res
+				}
 				x.vc.note("call to " + name + " uses its `" + v + "` view (abstract contract): " + vfc.Trusted)
 				return x.applyContract(fr, st, callee, vfc, args, site)
 			}
@@ -349,6 +359,46 @@ func (x *Exec) applyContract(fr *frame, st *State, callee *ssa.Function, fc *Fun
 	for _, e := range fc.Ensures {
 		g := x.evalBoolClause(cfr, &post, e, opts)
 		x.vc.assume(mkImplies(st.reach, g), "postcondition of "+callee.Name())
+	}
+	if fr.top && x.fc != nil && len(x.fc.Instances) > 0 {
+		// ghost-parametric postconditions of the callee, instantiated as the caller's contract asks;
+		// the instance terms are evaluated in the caller's state before the call
+		for _, gi := range x.fc.Instances {
+			for _, ie := range gi.Exprs {
+				for _, e := range fc.Ensures {
+					if !mentionsIdentDeep(x, e.Expr, gi.Ghost) {
+						continue
+					}
+					func() {
+						defer func() {
+							if r := recover(); r != nil {
+								if _, ok := r.(structureError); !ok {
+									panic(r)
+								}
+							}
+						}()
+						iv := x.evalExpr(fr, st, ie.Expr, x.loopOpts(fr, nil))
+						cur := x.evalIdent(cfr, &pre, gi.Ghost, opts)
+						if sc, ok := cur.(Sc); ok {
+							if u, isU := iv.(Untyped); isU {
+								iv = x.coerceTo(u, sc.Sort, sc.Signed)
+							}
+							if isc, ok2 := iv.(Sc); ok2 && isc.Sort != sc.Sort {
+								iv = Sc{T: resize(isc.T, sc.W(), isc.Signed), Signed: sc.Signed}
+							}
+						}
+						o2 := *opts
+						o2.ghost = map[string]Value{}
+						for k, v := range opts.ghost {
+							o2.ghost[k] = v
+						}
+						o2.ghost[gi.Ghost] = iv
+						g := x.evalBoolClause(cfr, &post, e, &o2)
+						x.vc.assume(mkImplies(st.reach, g), "postcondition of "+callee.Name()+" instance "+gi.Ghost+" := "+ie.Src)
+					}()
+				}
+			}
+		}
 	}
 	st.mem = post.mem
 	return res
